@@ -17,7 +17,10 @@ Validated input and output of tabular data in various formats.
 # along with this program.  If not, see <http://www.gnu.org/licenses/>.
 import itertools
 
+import sys
+
 from cutplace import _compat, data, errors, interface, rowio
+from cutplace import _verif
 
 # Valid choices for ``on_error`` parameter.
 _VALID_ON_ERROR_CHOICES = ("continue", "raise", "yield")
@@ -73,6 +76,7 @@ class BaseValidator(object):
         possible :py:exc:`cutplace.errors.CheckError` from the checks at the
         end.
         """
+        _verif.emit("exit", self, exc=None if exc_type is None else exc_type.__name__)
         if exc_type is None:
             self.close()
         else:
@@ -164,10 +168,12 @@ class BaseValidator(object):
           :py:meth:`cutplace.checks.AbstractCheck.check_at_end` fails.
         """
         if not self._is_closed:
+            _verif.emit("close_begin", self)
             try:
                 for check_name in self.cid.check_names:
                     self.cid.check_map[check_name].check_at_end(self.location)
             finally:
+                _verif.emit("close_end", self, error=sys.exc_info()[1], failed=locals().get("check_name"))
                 for check in self.cid.check_map.values():
                     check.cleanup()
             self._is_closed = True
@@ -212,6 +218,7 @@ class Reader(BaseValidator):
         self._validate_until = validate_until
         self.accepted_rows_count = None
         self.rejected_rows_count = None
+        _verif.emit("open", self, kind="reader", mode=on_error, until=validate_until)
 
     @property
     def on_error(self):
@@ -252,6 +259,7 @@ class Reader(BaseValidator):
         self.rejected_rows_count = 0
         for check in self.cid.check_map.values():
             check.reset()
+        _verif.emit("reader_start", self)
         header_row_count = self._cid.data_format.header
         for row_count, row in enumerate(self._raw_rows(), 1):
             try:
@@ -261,11 +269,16 @@ class Reader(BaseValidator):
                     if is_before_validate_until:
                         self.validate_row(row)
                     self.accepted_rows_count += 1
+                    _verif.emit("row", self, row, n=row_count, validated=is_before_validate_until, kind="accepted")
                     yield row
+                else:
+                    _verif.emit("row", self, row, n=row_count, kind="header")
             except errors.DataError as error:
                 if self.on_error == "raise":
+                    _verif.emit("row", self, row, error, n=row_count, kind="rejected")
                     raise
                 self.rejected_rows_count += 1
+                _verif.emit("row", self, row, error, n=row_count, kind="rejected")
                 if self.on_error == "yield":
                     yield error
                 else:
@@ -305,6 +318,7 @@ class Writer(BaseValidator):
             self._delegated_writer = rowio.FixedRowWriter(target, data_format, self._field_names_and_lengths)
         else:
             raise NotImplementedError("data_format=%r" % data_format.format)
+        _verif.emit("open", self, kind="writer")
 
     @property
     def location(self):
@@ -333,6 +347,7 @@ class Writer(BaseValidator):
         assert row_to_write is not None
         assert self._delegated_writer is not None
 
+        _verif.emit("write_begin", self, row_to_write)
         if self.location.line >= self._header:
             self.validate_row(row_to_write)
         if self.cid.data_format.format == data.FORMAT_FIXED:
@@ -340,6 +355,7 @@ class Writer(BaseValidator):
         else:
             actual_row_to_write = row_to_write
         self._delegated_writer.write_row(actual_row_to_write)
+        _verif.emit("write_end", self)
 
     def write_rows(self, rows_to_write):
         assert rows_to_write is not None
